@@ -3,7 +3,7 @@
    what the real replay applies to damaged log files; the abstract protocol of Model/Wal.v for the
    resulting state). *)
 From Coq Require Import NArith List Bool Arith.
-From PDB Require Import Gen.Consts Model.Wal Model.WalCodec Proofs.WalProofs Proofs.WalCodecProofs.
+From PDB Require Import Gen.Consts Model.Wal Model.WalCodec Proofs.WalProofs Proofs.WalCodecProofs Proofs.WalCodecRoundTrip.
 Import ListNotations.
 Open Scope N_scope.
 
@@ -38,6 +38,29 @@ Proof. exact replay_stops_at_invalid. Qed.
 Theorem C13_scanner_total :
   forall ncols b, frecs ncols b (fst (file_records ncols (S (length b)) b)) (snd (file_records ncols (S (length b)) b)).
 Proof. intros. apply file_records_spec. apply Nat.lt_succ_diag_r. Qed.
+
+(* The other direction: a record as the writer serialises it (any id below 2^64, any well-formed
+   actions) is parsed back as exactly that record, whatever follows it in the file - so every complete
+   record that reached the file is replayed; and NO strict prefix of it is ever taken for a record -
+   a torn tail is never applied. *)
+Theorem C13_complete_record_is_accepted :
+  forall ncols id acts tail,
+  id < 2 ^ 64 -> Forall (wf_action ncols) acts -> Forall payload_ok acts ->
+  parse_record ncols (serialize id acts ++ tail) = PRecord id acts (length (serialize id acts)).
+Proof. exact parse_serialize. Qed.
+
+Theorem C13_torn_record_never_applied :
+  forall ncols id acts n id' acts' len',
+  id < 2 ^ 64 -> Forall (wf_action ncols) acts -> Forall payload_ok acts ->
+  (n < length (serialize id acts))%nat ->
+  parse_record ncols (firstn n (serialize id acts)) <> PRecord id' acts' len'.
+Proof. exact torn_record_never_applied. Qed.
+
+Theorem C13_cut_inside_checksum_is_end_of_file :
+  forall ncols id acts n,
+  id < 2 ^ 64 -> Forall (wf_action ncols) acts -> (n < 4)%nat ->
+  parse_record ncols (ser_body id acts ++ firstn n (le 4 (crc32 (ser_body id acts)))) = PEof.
+Proof. exact torn_checksum_is_eof. Qed.
 
 (* The resulting state: a damaged log can only lose records. When the replayed prefix [t, m) still
    covers every record the tables already hold in whole or in part, the result is exactly the state
@@ -77,3 +100,6 @@ Print Assumptions C13_nothing_after_invalid.
 Print Assumptions C13_scanner_total.
 Print Assumptions C13_surviving_prefix_gives_prefix_state.
 Print Assumptions C13_older_prefix_over_newer_tables_refuted.
+Print Assumptions C13_complete_record_is_accepted.
+Print Assumptions C13_torn_record_never_applied.
+Print Assumptions C13_cut_inside_checksum_is_end_of_file.
